@@ -220,7 +220,7 @@ impl Check for C17 {
         if tier == Tier::Quick { 200 } else { 2000 }
     }
     fn required_counters(&self) -> Vec<&'static str> {
-        vec!["compactions_moving_entries", "arena_entries_compared", "batteries_compared", "retransmissions_compared", "refused_requests_checked", "acknowledged_entries_freed"]
+        vec!["compactions_moving_entries", "arena_entries_compared", "batteries_compared", "retransmissions_compared", "refused_requests_checked", "acknowledged_entries_freed", "continuations_on_a_fresh_broker_session"]
     }
     fn run(&self, workload: usize, seed: u64, _index: u64, tier: Tier, verbose: bool) -> CaseOut {
         let mut out = CaseOut::default();
@@ -239,6 +239,12 @@ impl Check for C17 {
             g.p.max_conns = 200;
         }
         let mut d = Chain { a: WithEpilogue::new(g, 120), b: Battery::new(cfg.tx), in_b: false, b_from: None };
+        // one continuation in three finds the broker without the session: whatever the old
+        // session held (a full send window, a full arena) must be gone without residue
+        d.a.force_fresh = rng.chance(1, 3);
+        if d.a.force_fresh {
+            out.count("continuations_on_a_fresh_broker_session", 1);
+        }
         let (mut log, world) = run_case(&cfg, seed, &mut d, steps + 2000);
         log.epilogue = true;
         log.epilogue_from = d.a.from_step;
